@@ -647,6 +647,9 @@ func nativeReplay(files []harnessFile, pkgDir string, replayFiles []string) []st
 		case strings.Contains(rec.Obligation, "nodeadlock") && (strings.Contains(s, "test timed out") || strings.Contains(s, "all goroutines are asleep")):
 			// the native process hung: the deadlock is real
 			out[i] = "confirmed"
+		case strings.Contains(rec.Obligation, "noexit") && !strings.Contains(s, "VERIF-REPLAY") && !strings.Contains(s, "panic:") && !strings.Contains(s, "test timed out") && strings.Contains(s, "=== RUN"):
+			// the native process ended without finishing the test and without a panic: log.Fatal / os.Exit in the code under test
+			out[i] = "confirmed"
 		case strings.Contains(rec.Obligation, "nopanic") && strings.Contains(s, "panic:") && strings.Contains(s, "goroutine "):
 			// the native process itself died from a panic (e.g. in a goroutine the server spawned)
 			out[i] = "confirmed"
